@@ -24,8 +24,10 @@ def edge_items(rng):
     return out
 
 
-def gen_writer(rng, tier, allow_omit=True, deep=False):
-    """a writer program in the style of C05: several sources/signals/types, annotations, UTC, user data"""
+def gen_writer(rng, tier, allow_omit=True, deep=False, edge=False):
+    """a writer program in the style of C05: several sources/signals/types, annotations, UTC, user data.
+    edge: add user-data items next to the copy's scratch-buffer size (C17 only: the crash-image checks C03/C19/C05 share this generator and
+    would copy, reopen and model megabyte-sized files thousands of times; without edge the PRNG stream is not consumed either)"""
     ops = ["wopen"]
     for s in range(rng.randrange(1, 3)):
         ops.append("src %d g%d.%d e - g3.2 e" % (s + 1, rng.choice([1, 8, 300]), rng.randrange(1, 999)))
@@ -99,7 +101,7 @@ def gen_writer(rng, tier, allow_omit=True, deep=False):
                          may_omit=any(c.startswith("omit") for c in merged) or (DT_BITS[dt] <= 8 and any(c.startswith("fsr") and c.split()[4] == "0" for c in merged)))
     if rng.random() < 0.5:
         body.append(["anno 0 %d 3f800000 1 0 2 g6.%d" % (t, t) for t in sorted(rng.sample(range(0, 1000), rng.choice([1, 3, 12])))])
-    body.append(["ud %d %d g%d.%d" % (rng.choice([1, 0xfff]), rng.choice([1, 2, 3]), rng.choice([0, 9, 1000]), rng.randrange(1, 999)) for _ in range(rng.randrange(0, 4))] + edge_items(rng))
+    body.append(["ud %d %d g%d.%d" % (rng.choice([1, 0xfff]), rng.choice([1, 2, 3]), rng.choice([0, 9, 1000]), rng.randrange(1, 999)) for _ in range(rng.randrange(0, 4))] + (edge_items(rng) if edge else []))
     idx = [0] * len(body)
     while any(idx[k] < len(body[k]) for k in range(len(body))):
         k = rng.choice([k for k in range(len(body)) if idx[k] < len(body[k])])
@@ -124,7 +126,7 @@ def dump_ops(rng, sigs, tier, stats=False):
 
 
 def gen_case(rng, tier):
-    w, sigs, has_omit = gen_writer(rng, tier)
+    w, sigs, has_omit = gen_writer(rng, tier, edge=True)
     d = dump_ops(rng, sigs, tier)
     ops = w + ["wclose", "copy", "ropen"] + d + ["rclose"]
     return ";".join(ops), dict(sigs=sigs, has_omit=has_omit, dist=["omit" if has_omit else "plain"], trivial=False)
@@ -340,7 +342,7 @@ def unclosed_run(ctx):
     import crashlib
     rng = ctx.rng
     n = 25 if ctx.tier == "quick" else 250
-    progs = [gen_writer(rng, ctx.tier, allow_omit=False, deep=(i % 2 == 0)) for i in range(n)]
+    progs = [gen_writer(rng, ctx.tier, allow_omit=False, deep=(i % 2 == 0), edge=True) for i in range(n)]
     probes = crashlib.probe(ctx, [p[0] for p in progs])
     scripts, metas = [], []
     for (w, sigs, _), pr in zip(progs, probes):
